@@ -197,6 +197,40 @@ def h08b(c, n_orders=2):
         c.cover("cleared")
 
 
+def h08d(c):
+    """re-settlement: two successive CLOSED updates with different results through the real simulation loop: each order's profit
+    and the last cleared summary follow the FINAL result"""
+    from flumine.events import events
+    from flumine.events.events import EventType
+    with cm.config_set(simulated=True):
+        fl, (client,), (strategy,) = cm.new_sim()
+        log = []
+        fl.add_logging_control(cm.NS(NAME="rec", logging_queue=cm.NS(put=log.append)))
+        market = cm.add_market(fl, cm.book([cm.runner(1), cm.runner(2)]))
+        o, d = _matched_order(c, "o", strategy, "S", kinds=["LIMIT"], unmatched_too=False)
+        o.update_client(client)
+        market.blotter[o.id] = o
+        o.status = OrderStatus.EXECUTION_COMPLETE
+        results = [c.choose("result%d" % k, ["WINNER", "LOSER"]) for k in range(2)]
+        c.tag("results", "/".join(results))
+        for k, res in enumerate(results):
+            bk = _close_book(c, {(1, 0): res}, "WIN", None, 0)
+            bk.version = 10 + k
+            with c.guard("close-%d" % k):
+                fl._process_market_books(events.MarketBookEvent([bk]))
+            orc, _ = oracle_profit(c, d, res, "WIN", None, 1, None)
+            c.ob("close%d.profit-follows-this-result" % k, c.close(o.profit, orc, HALF))
+            cleared = [e for e in log if e.EVENT_TYPE == EventType.CLEARED_MARKETS]
+            c.ob("close%d.summary-logged" % k, len(cleared) == k + 1)
+            if cleared:
+                summ = cleared[-1].event.orders[0]
+                c.ob("close%d.summary-profit-follows-this-result" % k, c.close(summ.profit, orc, HALF))
+                c.ob("close%d.commission-only-on-win" % k, c.Implies(summ.profit <= 0, summ.commission == 0))
+        if results[0] != results[1]:
+            c.cover("amended-result")
+        c.cover("resettled")
+
+
 OUT = ["each-way dead heats and multi-winner dead heats (flumine logs them as unhandled)",
        "the relation between average_price_matched and the individual fills (half a cent of the average times the matched size): wap is checked in C05/H05c",
        "more than 2 orders per client"]
@@ -204,6 +238,7 @@ HARNESSES = [
     Harness("H08a-S", h08a, quick=dict(mode="S"), pattern="P1 kernel-with-oracle", requires=["settled", "line-tie", "dead-heat", "each-way", "unmatched"], outside=OUT),
     Harness("H08a-P", h08a, quick=dict(mode="P"), pattern="P1 kernel-with-oracle", requires=["settled", "dead-heat", "each-way"], outside=OUT),
     Harness("H08c", h08c, pattern="P1 kernel-with-oracle", requires=["assigned"], outside=OUT),
+    Harness("H08d", h08d, pattern="P3 short history", requires=["resettled", "amended-result"], outside=OUT),
     Harness("H08b", h08b, quick=dict(n_orders=2), thorough=dict(n_orders=3), pattern="P1 kernel-with-oracle", requires=["cleared"], outside=OUT),
 ]
 META = {"assumptions": ["profit is settled on (size_matched, average_price_matched) as reported; matched sizes/prices: one factor of each product from a finite set"]}
